@@ -11,6 +11,7 @@ func TestWorker(t *testing.T) {
 		"C01": runC01,
 		"C02": runC02,
 		"C06": runC06,
+		"C07": runC07,
 		"C08": runC08,
 		"C09": runC09,
 	})
